@@ -783,6 +783,13 @@ func runC08(c *Ctx) {
 						if c08HasEffect(kind) {
 							modes = append(modes, "with-effect")
 						}
+						if kind == stor.OpRemove && typ == "manifest" && (cx == "Transaction.Commit" || cx == "Write(big)") {
+							// directed: the removal of the old manifest fails in all three attempts of a transaction commit
+							// that rotates the manifest (newManifest returns that error after it has switched)
+							for _, k := range pos {
+								add(phase, c08Fault{kind, typ, k, 3, "no-effect"})
+							}
+						}
 						for i, k := range ks {
 							if c.Thorough || (kind != stor.OpRead && kind != stor.OpList && kind != stor.OpGetMeta) || i == 0 {
 								for _, m := range modes {
